@@ -529,6 +529,13 @@ pub struct TargetInner {
     pub data: DataSet,
     pub applied: Vec<AppliedUpdate>,
     pub started: u64,
+    /// Fault injection: 1-in-n chance that `apply` fails with an internal
+    /// error (nothing applied) / that `push_update` rejects an item.
+    pub fail_apply: u64,
+    pub fail_push: u64,
+    pub ctx: Option<Arc<SimCtx>>,
+    pub rejected_applies: u64,
+    pub rejected_pushes: u64,
 }
 
 /// Recording target. It is lenient (set semantics) so that a completed step
@@ -539,10 +546,21 @@ pub struct ModelTarget(pub Arc<Mutex<TargetInner>>);
 pub struct ModelUpdate {
     reset: bool,
     items: Vec<(bool, Key, Vec<u32>)>,
+    target: Arc<Mutex<TargetInner>>,
 }
 
 impl rpki::rtr::client::PayloadUpdate for ModelUpdate {
     fn push_update(&mut self, action: Action, payload: Payload) -> Result<(), PayloadError> {
+        {
+            let mut t = self.target.lock().unwrap();
+            if t.fail_push > 0 {
+                let n = t.fail_push;
+                if t.ctx.as_ref().map(|c| c.choose(n) == n - 1).unwrap_or(false) {
+                    t.rejected_pushes += 1;
+                    return Err(PayloadError::Corrupt);
+                }
+            }
+        }
         let (k, v) = from_payload(&payload);
         self.items.push((action.is_announce(), k, v));
         Ok(())
@@ -554,11 +572,18 @@ impl PayloadTarget for ModelTarget {
 
     fn start(&mut self, reset: bool) -> Self::Update {
         self.0.lock().unwrap().started += 1;
-        ModelUpdate { reset, items: Vec::new() }
+        ModelUpdate { reset, items: Vec::new(), target: self.0.clone() }
     }
 
     fn apply(&mut self, update: Self::Update, timing: Timing) -> Result<(), PayloadError> {
         let mut t = self.0.lock().unwrap();
+        if t.fail_apply > 0 {
+            let n = t.fail_apply;
+            if t.ctx.as_ref().map(|c| c.choose(n) == n - 1).unwrap_or(false) {
+                t.rejected_applies += 1;
+                return Err(PayloadError::Internal);
+            }
+        }
         if update.reset {
             t.data.clear();
         }
